@@ -9,6 +9,7 @@ import (
 	"encoding/base64"
 	"encoding/json"
 	"fmt"
+	tmsecp "github.com/tendermint/tendermint/crypto/secp256k1"
 	"io/ioutil"
 	"math/big"
 	"os"
@@ -138,13 +139,31 @@ func accountFromEd(name string, k ed25519.PrivKeyEd25519) Account {
 }
 
 func accountFromEthSecp(name string, raw []byte) Account {
-	priv, err := keys.GetPrivateKeyFromBytes(raw, keys.ETHSECP)
+	return accountFromKey(name, raw, keys.ETHSECP)
+}
+
+func accountFromKey(name string, raw []byte, alg keys.Algorithm) Account {
+	priv, err := keys.GetPrivateKeyFromBytes(raw, alg)
 	if err != nil {
 		panic(err)
 	}
 	h, _ := priv.GetHandler()
 	pub := h.PubKey()
-	ph, _ := pub.GetHandler()
+	if alg == keys.SECP256K1 {
+		// PrivateKeySECP256K1.PubKey() keeps Tendermint's 5-byte amino prefix, which no handler accepts;
+		// take the 33-byte compressed key from Tendermint's type directly
+		var k tmsecp.PrivKeySecp256k1
+		copy(k[:], raw)
+		tp := k.PubKey().(tmsecp.PubKeySecp256k1)
+		pub, err = keys.GetPublicKeyFromBytes(tp[:], keys.SECP256K1)
+		if err != nil {
+			panic(err)
+		}
+	}
+	ph, err := pub.GetHandler()
+	if err != nil {
+		panic(err)
+	}
 	return Account{Name: name, Priv: priv, Pub: pub, Addr: ph.Address()}
 }
 
@@ -275,6 +294,10 @@ func New(p Params) (*World, error) {
 	for i := 0; i < p.NumUsers; i++ {
 		name := fmt.Sprintf("u%d", i)
 		a := accountFromEd(name, edKey(p.ChainID+"/user/"+name))
+		if i%6 == 3 {
+			// one user in six holds a Tendermint secp256k1 key
+			a = accountFromKey(name, detBytes(p.ChainID+"/user/"+name, 32), keys.SECP256K1)
+		}
 		w.Users = append(w.Users, &a)
 	}
 	for i := 0; i < p.NumEthUsers; i++ {
@@ -386,7 +409,9 @@ func (w *World) buildGenesis() error {
 	for _, v := range w.Vals {
 		balances = append(balances,
 			consensus.BalanceState{Address: v.Stake.Addr, Currency: "OLT", Amount: userAmt},
-			consensus.BalanceState{Address: v.Stake.Addr, Currency: "VT", Amount: *vt.NewCoinFromInt(100).Amount})
+			consensus.BalanceState{Address: v.Stake.Addr, Currency: "VT", Amount: *vt.NewCoinFromInt(100).Amount},
+			// the validator address itself can pay fees (it co-signs staking transactions and votes)
+			consensus.BalanceState{Address: v.ValAddr, Currency: "OLT", Amount: amt("5000000000000000000000")})
 		if !v.InGenesis {
 			continue
 		}
